@@ -163,6 +163,18 @@ func c03Oracle(j *productJob, c *run.Ctx, pc *pathCase, di, m int, out *spec.Out
 	}
 	funcErrs := j.env.ImplFuncErrs
 	ok, kind, detail := c03Judge(res, funcErrs)
+	wrapper := false
+	if ok && reentrantPath(pc.p) {
+		// paths whose user function calls back into the library are also evaluated through the
+		// one-shot Retrieve (which parses and evaluates in one call): it must be as total, and it
+		// must return (a call that never returns is caught by the per-case watchdog)
+		j.env.ResetImpl()
+		rr := retrieveOnce(pc.r.Text, j.ds.docs[m][di], j.env)
+		c.Evals++
+		if wok, wkind, wdetail := c03Judge(rr, j.env.ImplFuncErrs); !wok {
+			ok, kind, detail, wrapper = false, "retrieve-"+wkind, "through Retrieve(path, doc, config): "+wdetail, true
+		}
+	}
 	if ok {
 		if res.ErrType == "ErrorTypeUnmatched" {
 			c.Sample(map[string]interface{}{"path": pc.r.Text, "doc": j.ds.text[di], "mode": modeName[m], "error": res.ErrMsg})
@@ -173,8 +185,24 @@ func c03Oracle(j *productJob, c *run.Ctx, pc *pathCase, di, m int, out *spec.Out
 		Sig:    kind + ":" + gen.Shape(pc.p),
 		Detail: fmt.Sprintf("%s on %s (%s): %s", pc.r.Text, j.ds.text[di], modeName[m], detail),
 		Size:   len(pc.r.Text)*100 + len(j.ds.text[di]),
-		Case:   caseOf("C03", pc.r.Text, j.ds.text[di], m, "funcs"),
+		Case: func() map[string]interface{} {
+			cs := caseOf("C03", pc.r.Text, j.ds.text[di], m, "funcs")
+			if wrapper {
+				cs["wrapper"] = true
+			}
+			return cs
+		}(),
 	})
+}
+
+// reentrantPath: some function of the path calls back into the library (gre, fre).
+func reentrantPath(p *gen.Path) bool {
+	for _, f := range p.Funcs {
+		if strings.HasPrefix(f, "gre") || strings.HasPrefix(f, "fre") {
+			return true
+		}
+	}
+	return false
 }
 
 // ---------------------------------------------------------------------------
@@ -328,6 +356,11 @@ func init() {
 				}
 				res := impl.Call(pr.F, doc)
 				fe := env.ImplFuncErrs
+				if cs["wrapper"] == true {
+					env.ResetImpl()
+					res = retrieveOnce(path, doc, env)
+					fe = env.ImplFuncErrs
+				}
 				ok, _, detail := c03Judge(res, fe)
 				return !ok, detail
 			})
